@@ -1,0 +1,43 @@
+//go:build verif
+
+package argon2
+
+// Hooks for /verif property C15 (build tag "verif" only; nothing here is compiled
+// otherwise and nothing existing is changed).
+
+// VerifC15SetSSE4 sets the package variable useSSE4, which on amd64 selects between
+// the blamkaSSE4 assembly and the portable blamkaGeneric rounds inside
+// processBlockSSE, and returns the previous value. The caller is responsible for only
+// enabling it on CPUs that have SSE4.1 (see VerifC15CPUHasSSE41) and for not calling
+// it concurrently with Key/IDKey.
+func VerifC15SetSSE4(on bool) (prev bool) {
+	prev = useSSE4
+	useSSE4 = on
+	return prev
+}
+
+// VerifC15ProcessBlock runs the block function exactly as deriveKey dispatches it on
+// this platform (processBlock / processBlockXOR).
+func VerifC15ProcessBlock(out, in1, in2 *[128]uint64, xor bool) {
+	if xor {
+		processBlockXOR((*block)(out), (*block)(in1), (*block)(in2))
+	} else {
+		processBlock((*block)(out), (*block)(in1), (*block)(in2))
+	}
+}
+
+// VerifC15ProcessBlockGeneric runs the portable block function processBlockGeneric
+// (the one used when the assembly is not built).
+func VerifC15ProcessBlockGeneric(out, in1, in2 *[128]uint64, xor bool) {
+	processBlockGeneric((*block)(out), (*block)(in1), (*block)(in2), xor)
+}
+
+// VerifC15DeriveKey exposes deriveKey so that the RFC 9106 test vectors, which use a
+// secret and associated data, can be run on the real code. mode: 0 = Argon2d,
+// 1 = Argon2i, 2 = Argon2id.
+func VerifC15DeriveKey(mode int, password, salt, secret, data []byte, time, memory uint32, threads uint8, keyLen uint32) []byte {
+	return deriveKey(mode, password, salt, secret, data, time, memory, threads, keyLen)
+}
+
+// VerifC15BlakeHash exposes blake2bHash, the variable-length hash H' of RFC 9106 §3.3.
+func VerifC15BlakeHash(out, in []byte) { blake2bHash(out, in) }
